@@ -10,6 +10,7 @@ import (
 	"strings"
 
 	"com.tuntun.rangers/node/src/common"
+	"com.tuntun.rangers/node/src/core"
 	crypto "com.tuntun.rangers/node/src/eth_crypto"
 	"com.tuntun.rangers/node/src/middleware/db"
 	"com.tuntun.rangers/node/src/middleware/types"
@@ -31,6 +32,7 @@ const (
 
 func boot() {
 	hxnode.BootServices("dev")
+	core.VerifC01InitLoggers()
 	common.SetBlockHeight(blockHeight)
 }
 
@@ -475,7 +477,7 @@ func (h *harness) runTx(tx *txn) txResult {
 		if h.probe != nil {
 			h.probe.onPre(-1)
 		}
-		_, _, _, logs, err = evm.Create(caller, prog.rootInit, gasCap, value)
+		_, _, _, logs, err = evm.Create(caller, prog.rootInit[tx], gasCap, value)
 	} else {
 		if common.IsProposal007() {
 			nonce := adb.GetNonce(origin)
